@@ -35,7 +35,10 @@ def run(c):
         "other case, trailing dot, NFD; several spellings of one domain inside one delivery, across deliveries and through the connection pool); the key the remote target hands to the limits for each spelling "
         "at every place (rd.connections, TakeDest, ReleaseDest after a failed MAIL, ReleaseDest in Close, TakeMsg in Start, ReleaseMsg in Close) is read off the real bucket tables while a helper holds a permit of "
         "every candidate key (j.<spelling>.<conn>.<take>.<undo>.<close>.<src>.<srcRel> tokens = the model's RemKeys); every release must use the key of its take (C11/key-law = hypothesis RemKeys.Lawful of the "
-        "lifecycle theorems). distinct = distinct op lines",
+        "lifecycle theorems). The MX world of (4) and of the concurrent remote runs CHANGES between and inside deliveries (w.<kind> ops: MX lookup fails, MX hosts lose their address, null MX, connect refused, "
+        "connection dead before the greeting, TLS policy / MX policy failure, repaired again) while connections opened earlier sit in the pool; the next hop ends a session taken from the pool at MAIL "
+        "(421 kept open / 421 + close / drop / time-out; on every session or on reused sessions only = a per-session transaction limit) or refuses / accepts it, in every state of the world, for every "
+        "destination-limit configuration; whether the pool handed out a connection is observed (field P of the op = model input `pooled`). distinct = distinct op lines",
         explanation="theorems over all configurations, any number of goroutines and keys, all interleavings at channel-operation granularity, all session/delivery scripts; "
         "model tied to the code by differential runs",
         search=search,
